@@ -325,7 +325,8 @@ pub fn run(ctx: &Ctx) -> i32 {
     let bound = if ctx.thorough() { 3 } else { 2 };
     let mut b = Acc::new();
     let mut ex = json!({});
-    for (si, s) in subs_.iter().enumerate().take(if ctx.thorough() { subs_.len() } else { 3 }) {
+    // (the rpmbuild-made subjects have hundreds of write calls: they go through the chunk sweeps, not through the deviation explorers)
+    for (si, s) in subs_.iter().filter(|s| !s.name.starts_with("asset ")).enumerate().take(if ctx.thorough() { subs_.len() } else { 3 }) {
         for meta_only in [false, true] {
             if meta_only && si > 0 {
                 continue;
@@ -429,7 +430,7 @@ pub fn run(ctx: &Ctx) -> i32 {
     let rbound = if ctx.thorough() { 3 } else { 2 };
     let mut d = Acc::new();
     let mut rex = json!({});
-    for s in subs_.iter().take(if ctx.thorough() { subs_.len() } else { 2 }) {
+    for s in subs_.iter().filter(|s| !s.name.starts_with("asset ")).take(if ctx.thorough() { subs_.len() } else { 2 }) {
         let (st, accs) = explore(
             rbound,
             vlib::par::threads(),
@@ -462,7 +463,7 @@ pub fn run(ctx: &Ctx) -> i32 {
         let fbound = if ctx.thorough() { 2 } else { 1 };
         let mut f = Acc::new();
         let mut fex = json!({});
-        for s in subs_.iter() {
+        for s in subs_.iter().filter(|s| !(ctx.thorough() && s.name.starts_with("asset "))) {
             // the metadata and a little payload: the refill points of interest lie in lead, headers and padding
             let input = &s.canon[..s.canon.len().min(s.payload_off + 24)];
             for base in [1usize, 3, 8] {
